@@ -642,7 +642,7 @@ def c02(ctx):
     q = ctx.tier == "quick"
     tops = S("message", "presence", "iq", "features", "streamerror", "success", "failure", "enabled", "resumed", "r", "a", "failed", "handshake",
              "cmessage", "ciq", "unknownns", "unknownname", "smunknown", "saslunknown")
-    fills = S("empty", "text", "known", "unknown", "same", "deep", "two")
+    fills = S("empty", "text", "known", "unknown", "same", "deep", "two", "errcond")
     def cfg(n, t=tops, f=fills):
         return """SPECIFICATION GSpec
 CONSTANTS
@@ -657,9 +657,9 @@ CHECK_DEADLOCK FALSE
         scen = blines(vlib.tlc_mc(ctx, "StreamParser", "MC_StreamParser.cfg", cfgtext=cfg(2)))
         if not q:
             scen += blines(vlib.tlc_mc(ctx, "StreamParser", "MC_StreamParser.cfg",
-                                       cfgtext=cfg(3, S("message", "presence", "iq", "features", "r", "a", "cmessage", "unknownname"), S("empty", "known", "same", "two"))))
+                                       cfgtext=cfg(3, S("message", "presence", "iq", "features", "r", "a", "cmessage", "unknownname"), S("empty", "known", "same", "two", "errcond"))))
         ctx.exhaustive = True
-        ctx.notes["bounds"] = "all streams of <= 2 top-level elements (thorough: <= 3 over a reduced alphabet) over 19 top-level kinds (stanzas of both namespaces, features, stream error, SASL, the six SM elements, handshake, unknown namespace / name) x 7 content shapes (empty, text, known child, unknown nested, descendant named like the element, 4-deep nesting, direct child named like the element); segmentations: whole, 1 byte per read, single split points, seeded multi-splits; every truncation of %d streams; %d single-byte corruptions" % ((6, 3000) if q else (60, 60000))
+        ctx.notes["bounds"] = "all streams of <= 2 top-level elements (thorough: <= 3 over a reduced alphabet) over 19 top-level kinds (stanzas of both namespaces, features, stream error, SASL, the six SM elements, handshake, unknown namespace / name) x 8 content shapes (empty, text, known child, unknown nested, descendant named like the element, 4-deep nesting, direct child named like the element, <error/> child with each of the 23 defined conditions with and without content / text / application condition); segmentations: whole, 1 byte per read, single split points, seeded multi-splits; every truncation of %d streams; %d single-byte corruptions" % ((6, 3000) if q else (60, 60000))
         out, nev, _ = vlib.run_driver(ctx, "c02", scen=scen, args=["-splits", "12" if q else "60", "-trunc", "6" if q else "60", "-corrupt", "3000" if q else "60000"], timeout=3000)
         ctx.verdicts += vlib.tlc_trace(ctx, "TraceStreamParser", "Trace_StreamParser.cfg", out, nev, timeout=2400)
     replay_or(ctx, "c02", "TraceStreamParser", "Trace_StreamParser.cfg", full)
@@ -712,7 +712,7 @@ def c01(ctx):
                     seen.add(k)
                     scen.append(b)
         ctx.exhaustive = True
-        ctx.notes["bounds"] = "message/presence/iq: every subset of {type,id,from,to,lang} x {no error, full error, error without text, error without legacy code} x 10 text classes; every registered message extension (16 of the 21; PubSubEvent, HTML, Delegation not populated), the MUC presence extension, IQ payloads {version, disco#info, disco#items, bind, roster, generic node tree}; every ordered pair of distinct message extensions; the 7 stream-management elements, <auth/>, <handshake/>; %d concretisations each" % (2 if q else 6)
+        ctx.notes["bounds"] = "message/presence/iq: every subset of {type,id,from,to,lang} x {no error, full error, error without text, error without legacy code} x 13 text classes (markup characters, CDATA terminator, whitespace forms, CR / CRLF / TAB, markup-dense text, non-ASCII); every registered message extension (16 of the 21; PubSubEvent, HTML, Delegation not populated), the MUC presence extension, IQ payloads {version, disco#info, disco#items, bind, roster, generic node tree}; every ordered pair of distinct message extensions; the 7 stream-management elements, <auth/>, <handshake/>; %d concretisations each" % (2 if q else 6)
         out, nev, _ = vlib.run_driver(ctx, "c01", scen=scen, args=["-variants", "2" if q else "6"], timeout=2400)
         ctx.verdicts += vlib.tlc_trace(ctx, "TraceCodec", "Trace_Codec.cfg", out, nev, timeout=1800)
     replay_or(ctx, "c01", "TraceCodec", "Trace_Codec.cfg", full)
